@@ -121,7 +121,7 @@ func Attrs(r *rand.Rand, legacy bool) *message.Attributes {
 		}
 		a.TouchlessSudo.Time = []int64{math.MaxInt64, math.MinInt64, math.MaxInt32, math.MaxInt32 + 1, math.MinInt32 - 1, 1<<53 + 1, -(1<<53 + 1), 0, -1}[r.Intn(9)]
 	case 1:
-		a.Username = strings.Repeat(str(16), 200+r.Intn(2000))
+		a.Username = strings.Repeat(str(16), 200+r.Intn(9000))
 	case 2:
 		a.Hostname = strings.Repeat(str(8)+".", 100+r.Intn(900)) + "example"
 	case 3:
@@ -129,7 +129,7 @@ func Attrs(r *rand.Rand, legacy bool) *message.Attributes {
 			a.TouchlessSudo = &message.TouchlessSudo{}
 		}
 		var hs []string
-		for i := 50 + r.Intn(800); i > 0; i-- {
+		for i := 50 + r.Intn(6000); i > 0; i-- {
 			hs = append(hs, "host"+strconv.Itoa(i)+".example.com")
 		}
 		a.TouchlessSudo.Hosts = strings.Join(hs, ",")
